@@ -70,6 +70,8 @@ def pair_cover(ctx, g, lp, exe, variant, hargs, keyfn, cap, line=step_line, env=
             c1 = (ecrc(e1) * 0x9E3779B1) & 0xffffffff
             if loops and ((c1 ^ 0x5bd1e995) * 0x85EBCA77 & 0xffffffff) < T:
                 cands.append((e1, loops))
+                if len(loops) > 1:
+                    cands.append((e1, loops[::-1]))
             for e2 in moves:
                 if (((c1 ^ ecrc(e2)) * 0x85EBCA77) & 0xffffffff) < T:
                     cands.append((e1, [e2]))
@@ -77,7 +79,12 @@ def pair_cover(ctx, g, lp, exe, variant, hargs, keyfn, cap, line=step_line, env=
         for e1 in firsts:
             loops, moves = outs_of(g.post_key(e1))
             if loops:
+                # the self-loops of the post-state run as ONE chain - in both orders, because a self-loop that re-establishes
+                # hidden state (a setter given the value already held, which recompiles / reallocates) masks a defect of e1
+                # for every query behind it in the chain
                 cands.append((e1, loops))
+                if len(loops) > 1:
+                    cands.append((e1, loops[::-1]))
             for e2 in moves:
                 cands.append((e1, [e2]))
     scripts = []
